@@ -381,6 +381,10 @@ class RetryExecutor(CanCustomizeBind, Executor):
 
                     if not job.delegate_future:
                         self._log.debug("Successful cancel - no delegate: %s", job)
+                        # Drop the reference to the previous attempt's future as well:
+                        # its callbacks refer to this executor, and a cancelled future
+                        # held by the caller must not keep the executor alive.
+                        future._clear_delegate()
                         self._pop_job(job)
                         return True
 
